@@ -8,7 +8,7 @@ CONSTANTS SlotDur = 3
  Variant = "code"
  MaxTime = 28
  GenEnd = 24
- MaxHeads = 8
+ MaxHeads = 10
  MaxFail = 2
  Interleave = FALSE
  MaxJump = 3
